@@ -687,7 +687,7 @@ Proof. intros. rewrite !instance_slice_sel. apply (put_other (cx_instance cx) j)
 Lemma mgr_step_inv m o m' :
   mgr_inv m -> mgr_step m o = Some m' -> m_next m' <> 0 -> mgr_inv m'.
 Proof.
-  intros (Hn & Ht & Hinv & He) St NZ. destruct o as [|i op]; cbn [mgr_step] in St.
+  intros (Hn & Ht & Hinv & He) St NZ. destruct o as [|i op|live]; cbn [mgr_step] in St.
   - rewrite new_instance_id_first in St by (intros t Ht' ->; apply Ht in Ht'; lia).
     inversion St; subst; clear St. cbn [m_next m_taken m_store] in *.
     assert (L : m_next m < 2 ^ 32 - 1).
@@ -709,7 +709,22 @@ Proof.
     + intros j Hj Hle. rewrite instance_slice_sel.
       destruct (apply_iop_other i j H Hj ltac:(lia) op (m_store m) Hinv) as [E _].
       etransitivity; [exact E|]. now apply He.
+  - destruct (forallb (fun i0 => existsb (N.eqb i0) (m_taken m)) live) eqn:E; [|discriminate].
+    inversion St; subst; clear St. cbn [m_next m_taken m_store] in *.
+    unfold mgr_inv; cbn [m_next m_taken m_store]. repeat split; try tauto.
+    intros t Hl. rewrite forallb_forall in E. specialize (E t Hl).
+    apply existsb_exists in E as [t' [Ht' E]]. apply N.eqb_eq in E. subst t'. now apply Ht.
 Qed.
+
+(* the recomputed counter of seeded change C06-r2m1 hands out the id of an instance whose deletion
+   was interrupted, and with it that instance's keys *)
+Lemma restart_recomputed_witness :
+  let m0 := {| m_next := 1; m_taken := []; m_store := [] |} in
+  exists m1 m2 m3,
+    mgr_run m0 [MNew; MNew; MOp 2 (IPut 1 0 [177; 1; 97; 0] [7])] = Some m1 /\
+    mgr_step (restart_recomputed m1 [1]) MNew = Some m2 /\ instance_slice 2 (m_store m2) <> [] /\
+    mgr_run m1 [MRestart [1]; MNew] = Some m3 /\ m_taken m3 = [3; 1] /\ instance_slice 3 (m_store m3) = [].
+Proof. vm_compute. eexists _, _, _. repeat split; discriminate. Qed.
 
 Lemma mgr_new_fresh m m' :
   mgr_inv m -> mgr_step m MNew = Some m' ->
